@@ -78,6 +78,11 @@ def unit_store_histories(ctx, fmt, sig_prefix):
             ops = []
             if not last:
                 ops += [("W", i, p) for p in paths for i in ((0, 1, 2) if p != 2 else (1, 2))]
+                # a write that the library refuses (unknown representation; for VTK also a field on a 2-d mesh), aimed at
+                # a path that holds a file: the file and its side-car must still be what was written last
+                ops += [("X", 1 if model[p] != 1 else 2, p) for p in (0, 1) if p in model]
+                if fmt == "vtk":
+                    ops += [("Y", None, p) for p in (0, 1) if p in model]
             ops += [("R", None, p) for p in paths if p in model and not (cross and p == 2)]
             if not last and last_read is not None:
                 ops.append(("M", None, None))
@@ -93,6 +98,23 @@ def unit_store_histories(ctx, fmt, sig_prefix):
                 ctx.check()
                 if C.field_snap(fields[op[1]]) != snaps[op[1]]:
                     ctx.fail(f"{sig_prefix}/history/write-modified-field", f"{hist}", instance=f"{fmt};{hist}")
+            elif op[0] in ("X", "Y"):
+                if op[0] == "X":
+                    src = fields[op[1]]
+                    kw = {"representation": "bin16"}
+                else:
+                    m2 = df.Mesh(p1=(0.0, 0.0), p2=(4.0, 2.0), n=(2, 2), subregions={"flat": df.Region(p1=(0, 0), p2=(2, 2))})
+                    src = df.Field(m2, nvdim=2, value=(1.0, 2.0))
+                    kw = {}
+                ctx.step(1, f"write that must be refused -> path {op[2]}")
+                raised, r = C.raises(src.to_file, path, **kw)
+                ctx.check()
+                if not raised:
+                    # accepted after all (a writer may ignore the option): then it is a write like any other
+                    if op[0] == "X":
+                        model[op[2]] = op[1]
+                    else:
+                        model.pop(op[2], None)
             elif op[0] == "R":
                 ctx.step(1, f"read path {op[2]}")
                 raised, g = C.raises(df.Field.from_file, path)
